@@ -53,6 +53,7 @@ def main (args : List String) : IO UInt32 := do
       | "c16" => Driver.C16.run ops impl
       | "c20" => Driver.C20.run ops impl
       | "c12" => Driver.C12.run ops impl
+      | "c12-free" => Driver.C12.runFree ops impl
       | "c05" => Driver.C05.run ops impl
       | "c07-tree" => Driver.C05.runC07 ops impl
       | "c05-mx" => Driver.TreeMx.run ops impl
